@@ -112,6 +112,24 @@ fn check_inner(text: &str, out: &mut Out, exact: bool) {
             let mag = subj::magnitude(&comps, f);
             let t = subj::tol(mag);
             affine(&eps, &cfg, t, out);
+            // history of calls: the completed factor set returned by an earlier evaluation (at k_exp = 1) is the factor set of
+            // the next ones — still "fixed components and factors": B(k) must interpolate between A and B(1) as before
+            if *fs == "PENINSULA" {
+                let first = &eps[eps.len() - 1];
+                let mut eps2 = vec![];
+                for k in KS {
+                    out.evals += 1;
+                    if let Ok(e) = subj::eval(&comps, &first.wfactors, k, 1.0, lm) {
+                        eps2.push(e);
+                    }
+                }
+                if eps2.len() == KS.len() {
+                    out.regime("factors_of_an_earlier_evaluation");
+                    affine(&eps2, &format!("{cfg}; factors = those returned by an earlier evaluation at k_exp=1"), t, out);
+                } else {
+                    out.viol("error_depends_on_k", &["history"], format!("{cfg}; factors = those returned by an earlier evaluation at k_exp=1"), format!("{} of {} k values evaluated", eps2.len(), KS.len()), "all");
+                }
+            }
             // flows and step A do not depend on k
             // full-tree comparison: k = 0 against k = 0.337 and k = 1
             let sel = [0usize, 2, eps.len() - 1];
